@@ -253,3 +253,132 @@ class DependOnExit(Kernel):
 
 KERNELS = [Enter(), Exit(), GetChain(), PriorityFilter()]
 C06_KERNELS = [DependOnExit()]
+
+
+class Candidates(Kernel):
+    """region 'backends = set() ... for tensor in tensors: backends.update(_get_by_tensor(tensor))' of _get_by_tensors, with the real nested _get_by_tensor inlined"""
+    id = "C11.P.candidates"
+    prop = "C11"
+    file, module, qual = BK, "einx._src.frontend.backend", "BackendRegistryState/_get_by_tensors"
+    ntensors = 2
+    describe = ("candidate collection (two tensor arguments): the set contains only registered backends that accept one of the tensors; it contains EVERY backend of the entry registry that accepts a tensor; "
+                "a tensor that no registered backend accepts triggers the (single) check for newly imported frameworks, and then every backend of the updated registry accepting it is a candidate "
+                "(lazy registration is per tensor: 'numpy defers to any other framework present' needs the framework's backend even when numpy already matched another argument)")
+
+    def region(self, fnode):
+        body = fnode.body
+        a = [i for i, st in enumerate(body) if isinstance(st, ast.Assign) and ast.unparse(st) == "backends = set()"]
+        b = [i for i, st in enumerate(body) if isinstance(st, ast.For) and ast.unparse(st.target) == "tensor" and ast.unparse(st.iter) == "tensors"]
+        if len(a) != 1 or len(b) != 1 or b[0] != a[0] + 1:
+            raise LookupError("anchors `backends = set()` followed by `for tensor in tensors:` not found in _get_by_tensors")
+        self._helper = [st for st in body if isinstance(st, ast.FunctionDef) and st.name == "_get_by_tensor"]
+        if len(self._helper) != 1:
+            raise LookupError("nested helper _get_by_tensor not found")
+        return body[a[0] : b[0] + 1]
+
+    def setup(self, eng, bound=None):
+        n0, n1 = z3.Ints("n_backends_before n_backends_after")
+        B0, B1 = z3.Array("registry_before", I, Obj), z3.Array("registry_after", I, Obj)
+        self.n0, self.n1, self.B0, self.B1 = n0, n1, B0, B1
+        sup = self.sup = z3.Function("is_supported_tensor", Obj, Obj, B)
+        ts = self.ts = [z3.Const(f"tensor{i}", Obj) for i in range(self.ntensors)]
+        changed = self.changed = z3.Bool("new_imports_found")
+        k = z3.Int("k")
+
+        def c_check(e, p, av, kw):
+            # _check_new_imports(has_checked): at most one real check per lookup; it may append backends to self.backends (never removes or reorders)
+            if p.ghost.get("checked"):
+                return SBool(False)
+            p.ghost["checked"] = True
+            out = []
+            q = p.fork()
+            q.pc.append(changed)
+            st = q.lookup("self")
+            f = dict(st.f)
+            f["backends"] = SSeq(B1, n1, "obj", "list")
+            nr = SRec(st.cls, **f)
+            q.bind("self", nr, nonlocal_=True)
+            out.append((SBool(True), q))
+            r = p.fork()
+            r.pc.append(z3.Not(changed))
+            out.append((SBool(False), r))
+            return out
+
+        eng.contracts.update({"self._check_new_imports": SContract(c_check, "_check_new_imports (once per lookup; appends newly importable backends)"),
+                              "backend.is_supported_tensor": SContract(lambda e, p, av, kw: SBool(sup(e_backend(p), av[0].t)))})
+
+        def e_backend(p):
+            return p.lookup("backend").t
+
+        self.find_helper()
+        st = SRec("BackendRegistryState", backends=SSeq(B0, n0, "obj", "list"))
+        env = {"self": st, "tensors": STup([SObj(t) for t in ts]), "has_checked_new_imports": SObj(z3.Const("has_checked", Obj)), "_get_by_tensor": SFunc(self._helper_node)}
+        pre = [n0 >= 0, n1 >= n0, z3.ForAll([k], z3.Implies(z3.And(0 <= k, k < n0), B1[k] == B0[k]))]
+        return env, pre, {}
+
+    def find_helper(self):
+        node, _ = locate(self.path(), self.qual)
+        hs = [st for st in node.body if isinstance(st, ast.FunctionDef) and st.name == "_get_by_tensor"]
+        if len(hs) != 1:
+            raise LookupError("nested helper _get_by_tensor not found")
+        self._helper_node = hs[0]
+
+    def post(self, eng, out, p):
+        if out is not None and not isinstance(out, Return):
+            if isinstance(out, Raise):
+                eng.oblige(f"post:no {out.cls}", p, z3.BoolVal(False), "post")
+            return
+        R = p.lookup("backends")
+        if not isinstance(R, SSet):
+            eng.oblige("post:the candidates are collected in a set", p, z3.BoolVal(False), "post")
+            return
+        mem = (lambda b: z3.Select(R.member, b)) if R.member is not None else (lambda b: z3.BoolVal(False))  # noqa  (member None: still the empty set)
+        n0, n1, B0, B1, sup, ts = self.n0, self.n1, self.B0, self.B1, self.sup, self.ts
+        checked = bool(p.ghost.get("checked"))
+        k, b = fresh("k"), fresh("b", Obj)
+        nfin, Bfin = (n1, B1) if checked else (n0, B0)
+        in_fin = z3.Exists([k], z3.And(0 <= k, k < nfin, z3.Select(Bfin, k) == b))
+        eng.oblige("post:every candidate is a registered backend that accepts one of the tensors", p, z3.ForAll([b], z3.Implies(mem(b), z3.And(in_fin, z3.Or(*[sup(b, t) for t in ts])))), "post")
+        for i, t in enumerate(ts):
+            eng.oblige(f"post:every backend of the entry registry that accepts tensor {i} is a candidate", p, z3.ForAll([k], z3.Implies(z3.And(0 <= k, k < n0, sup(z3.Select(B0, k), t)), mem(z3.Select(B0, k)))), "post")
+            none0 = z3.ForAll([k], z3.Implies(z3.And(0 <= k, k < n0), z3.Not(sup(z3.Select(B0, k), t))))
+            eng.oblige(f"post:if no backend of the entry registry accepts tensor {i}, newly imported frameworks have been checked", p, z3.Implies(none0, z3.BoolVal(checked)), "post")
+            if checked:
+                eng.oblige(f"post:after that check every backend of the updated registry that accepts tensor {i} (none did before) is a candidate", p,
+                           z3.Implies(z3.And(none0, self.changed), z3.ForAll([k], z3.Implies(z3.And(0 <= k, k < n1, sup(z3.Select(B1, k), t)), mem(z3.Select(B1, k))))), "post")
+
+    def twin(self, tier):
+        """native: real BackendRegistryState with a lazily registered framework: (numpy array, framework tensor) in both orders, cold"""
+        import sys
+        import types
+        import numpy as np
+        import einx._src.frontend.backend as Bk
+        n, fails = 0, []
+
+        class FT:
+            pass
+
+        for order in ((0, 1), (1, 0)):
+            for pre_lookup in (False, True):
+                n += 1
+                modname = f"_vf_fake_framework_{n}"
+                st = Bk.BackendRegistryState()
+                st.seen_module_names.update(sys.modules)
+                npb = Bk.Backend(ops={}, name="numpy", priority=-1, optimizations=[], compiler=None, is_supported_tensor=lambda t: isinstance(t, np.ndarray), get_shape=None)
+                st._register(npb)
+                fb = Bk.Backend(ops={}, name="fake", priority=0, optimizations=[], compiler=None, is_supported_tensor=lambda t: isinstance(t, FT), get_shape=None)
+                st._register_on_import(modname, "fake", lambda fb=fb: fb)
+                sys.modules[modname] = types.ModuleType(modname)
+                try:
+                    if pre_lookup:
+                        st._get_by_tensors([FT()])
+                    args = [np.zeros(2), FT()]
+                    got = st._get_by_tensors([args[i] for i in order])
+                    if [x.name for x in got] != ["fake"]:
+                        fails.append({"detail": f"cold lookup of (ndarray, framework tensor) in order {order} (framework imported but not yet registered, earlier framework-only lookup: {pre_lookup}) selects {[x.name for x in got]}, expected ['fake']"})
+                finally:
+                    del sys.modules[modname]
+        return n, fails[:3]
+
+
+KERNELS = list(KERNELS) + [Candidates()] if "KERNELS" in globals() else [Candidates()]
